@@ -16,6 +16,7 @@ byte, and which contract text to splice in (insertions only):
     //@loop <n>                lines inserted before the '{' of the n-th loop (textual order)
     //@before <anchor>[ ##k]   lines inserted before the k-th occurrence of the anchor text in the body
     //@after <anchor>[ ##k]    lines inserted after  the k-th occurrence of the anchor text in the body
+    //@afterstmt <anchor>[ ##k] lines inserted after the ';' ending the statement that starts at the anchor
     //@end
 
     //@item <relpath> <struct|enum|const|static|type> <Name> [#k]   copies one item (attributes and doc
@@ -214,7 +215,7 @@ def gen_fn(repo, fs, unit):
             if n < 1 or n > len(loops):
                 raise GenError('lost anchor: loop %d of %s (function has %d loops)' % (n, sel, len(loops)))
             inserts.append((loops[n - 1][1], order, '\n' + payload + '\n', 'loop%d' % n)); order += 1
-        elif b.kind in ('before', 'after'):
+        elif b.kind in ('before', 'after', 'afterstmt'):
             arg = b.arg
             k = 1
             mm = re.search(r'\s##(\d+)\s*$', arg)
@@ -237,8 +238,25 @@ def gen_fn(repo, fs, unit):
                 # require uniqueness when no ordinal is given
                 if text.find(arg, found + 1, body_close) >= 0:
                     raise GenError('ambiguous anchor: %s: `%s` occurs more than once; add ##k' % (sel, arg))
-            off = found if b.kind == 'before' else found + len(arg)
-            inserts.append((off, order, ('\n' if b.kind == 'after' else '') + payload + '\n', '%s:%s' % (b.kind, arg[:30]))); order += 1
+            if b.kind == 'afterstmt':
+                # end of the statement that starts at the anchor: next ';' at nesting depth 0
+                depth = 0
+                k2 = found
+                while k2 < body_close:
+                    ch = mt[k2]
+                    if ch in '([{':
+                        depth += 1
+                    elif ch in ')]}':
+                        depth -= 1
+                        if depth < 0:
+                            raise GenError('lost anchor: %s: statement after `%s` has no terminating ;' % (sel, arg))
+                    elif ch == ';' and depth == 0:
+                        break
+                    k2 += 1
+                off = k2 + 1
+            else:
+                off = found if b.kind == 'before' else found + len(arg)
+            inserts.append((off, order, ('\n' if b.kind != 'before' else '') + payload + '\n', '%s:%s' % (b.kind, arg[:30]))); order += 1
         elif b.kind == 'inline_before' or b.kind == 'inline_after':
             raise GenError('unsupported')
         else:
@@ -387,7 +405,7 @@ def generate(repo, template_path, unit):
                         fs.substs.append((a.strip().strip('`'), b.strip().strip('`')))
                     elif d2 == 'attr':
                         fs.attrs.append(a2)
-                    elif d2 in ('contract', 'bodystart', 'loop', 'before', 'after'):
+                    elif d2 in ('contract', 'bodystart', 'loop', 'before', 'after', 'afterstmt'):
                         cur = Block(d2, a2)
                         fs.blocks.append(cur)
                     else:
